@@ -13,17 +13,13 @@ whose program steps follow the lifecycle automaton (`pcRun L .idle pre = some pc
 about a delivery in the gap after `pre`, and about arbitrary continuations `post`.  So "all programs and
 all schedules" is `∀ pre post`.  Both meanings of `signal(2)` (`Mode.bsd`, `Mode.sysv`) are covered.
 
-The code at the pinned commit does NOT satisfy the property at full strength.  There are three
-windows; for each the full statement is kept in a comment, the proved theorem carries the suffix
-`_partial`, and a proved `C15_counterexample_*` shows the failing schedule on the model (the check replays
-the same schedule on the real code):
-
-* ctor window   — a signal after `signal(SIGINT, …)` but before `stop_ = 0` is wiped out (lost), and two
-                  signals there terminate the process;
-* SetHandler window — a signal between `handler_ = handler` and `data_ = data` calls the new callback
-                  with the previous registration's data (null for the first registration);
-* teardown      — the destructor's `stop_ = 1` forgets one of two recorded interrupts, so a third
-                  interrupt after it does not terminate the process.
+History.  The originally pinned code violated the property in three windows.  Two were repaired in ampl/mp
+(208050e constructor order, 47cb42b `SetHandler` order); the model carries the store order as a parameter
+(`Layout`), `Layout.current` is the order the code has now, and the MAIN THEOREMS section states the strict
+property for it.  The statements valid for *any* store order (`C15_anyorder_*`, used in the proofs) and the proved
+counterexamples for the old order (`C15_oldorder_counterexample_*`) are kept as the record of the two fixed findings.
+Still open: the destructor's `stop_ = 1` forgets one of two recorded interrupts, so a third interrupt arriving after
+it does not terminate the process (`C15_third_exits_partial`, `C15_counterexample_third_no_exit_across_teardown`).
 -/
 namespace MpVerif.C15
 
@@ -36,7 +32,7 @@ theorem C15_stop_bounded (md : Mode) (evs : List Ev) : (run md init evs).1.stop 
 /-! ## an interrupt is not lost -/
 
 /-
-Full-strength statement (FALSE at the pinned commit, see `C15_counterexample_lost_in_ctor_window`):
+Full-strength statement (false for the OLD store order, see `C15_oldorder_counterexample_lost_in_ctor_window`):
 "installed" = the handler function is the disposition of the signal, i.e. from the `signal()` call on.
 
 theorem C15_no_lost (L : Layout) (md : Mode) (pre : List Ev) (g : Sig) (post : List Ev) (pc : PC)
@@ -52,7 +48,7 @@ theorem C15_no_lost (L : Layout) (md : Mode) (pre : List Ev) (g : Sig) (post : L
     prefix `pre` ending at a point where the handler object is installed, a signal delivered there, and every
     continuation `post` made of registrations (their individual stores), solve/report steps and further
     signals in any interleaving: if the process is still running, the stop query answers true. -/
-theorem C15_no_lost_partial (L : Layout) (md : Mode) (pre : List Ev) (g : Sig) (post : List Ev) (pc : PC)
+theorem C15_anyorder_no_lost_after_ctor (L : Layout) (md : Mode) (pre : List Ev) (g : Sig) (post : List Ev) (pc : PC)
     (hpc : pcRun L .idle pre = some pc) (hin : pc.installed = true)
     (hpost : ∀ e ∈ post, Body e = true)
     (hrun : (run md init (pre ++ .sig g :: post)).1.halted = none) :
@@ -81,7 +77,7 @@ theorem C15_no_lost_partial (L : Layout) (md : Mode) (pre : List Ev) (g : Sig) (
 /-- The ctor window on the model: program `C W`, SIGINT delivered right after `signal(SIGINT, HandleSigInt)`.
     The handler runs (break text written, `stop_` 1→2), then `stop_ = 0` wipes it out: the process keeps
     running and the stop query of the following solve step answers false. -/
-theorem C15_counterexample_lost_in_ctor_window :
+theorem C15_oldorder_counterexample_lost_in_ctor_window :
     let evs := schedule (expandProg .pinned [.ctor, .work]) 0 [(5, .int)]
     pcRun .pinned .idle evs = some (.live none) ∧
     (run .bsd init evs).1.halted = none ∧
@@ -93,7 +89,7 @@ theorem C15_counterexample_lost_in_ctor_window :
 /-! ## callback / data pairing -/
 
 /-
-Full-strength statement (FALSE at the pinned commit, see `C15_counterexample_mispaired_*`):
+Full-strength statement (false for the OLD store order, see `C15_counterexample_mispaired_*`):
 
 theorem C15_pairing (md : Mode) (prog : List Macro) (evs : List Ev)
     (hw : wfProg prog = true) (hs : steps evs = expandProg .pinned prog) (h d : Nat)
@@ -103,7 +99,7 @@ theorem C15_pairing (md : Mode) (prog : List Macro) (evs : List Ev)
 /-- **Pairing** (partial: every gap except the one between the two stores of `SetHandler`).  A callback
     invoked by a signal delivered after any well-formed prefix is the callback of the last completed
     registration of the current handler object, with that registration's data. -/
-theorem C15_pairing_partial (L : Layout) (md : Mode) (pre : List Ev) (g : Sig) (pc : PC)
+theorem C15_anyorder_pairing_outside_window (L : Layout) (md : Mode) (pre : List Ev) (g : Sig) (pc : PC)
     (hpc : pcRun L .idle pre = some pc) (hw : pc.inWindow = false)
     (hrun : (run md init pre).1.halted = none) (h d : Nat)
     (hcb : Obs.cb h d ∈ (deliver md (run md init pre).1 g).2) :
@@ -144,7 +140,7 @@ theorem C15_callback_invoked (L : Layout) (md : Mode) (pre : List Ev) (g : Sig) 
 
 /-- SetHandler window, first registration: `C R(1,1)` with SIGINT between the two stores calls callback 1
     with a null data pointer, although `SetHandler(1, null)` was never called. -/
-theorem C15_counterexample_mispaired_first_registration :
+theorem C15_oldorder_counterexample_mispaired_first_registration :
     let prog := [Macro.ctor, .reg 1 1]
     let evs := schedule (expandProg .pinned prog) 0 [(8, .int)]
     wfProg .pinned prog = true ∧ steps evs = expandProg .pinned prog ∧
@@ -153,7 +149,7 @@ theorem C15_counterexample_mispaired_first_registration :
 
 /-- SetHandler window, re-registration: `C R(1,1) R(2,2)` with SIGINT between the stores of the second
     `SetHandler` calls the new callback 2 with the old data 1. -/
-theorem C15_counterexample_mispaired_reregistration :
+theorem C15_oldorder_counterexample_mispaired_reregistration :
     let prog := [Macro.ctor, .reg 1 1, .reg 2 2]
     let evs := schedule (expandProg .pinned prog) 0 [(10, .int)]
     wfProg .pinned prog = true ∧ steps evs = expandProg .pinned prog ∧
@@ -163,7 +159,7 @@ theorem C15_counterexample_mispaired_reregistration :
 /-! ## a third interrupt terminates the process (and the first two do not) -/
 
 /-
-Full-strength statement (FALSE at the pinned commit, see `C15_counterexample_third_*`): any three signals
+Full-strength statement (false for the OLD store order, see `C15_counterexample_third_*`): any three signals
 delivered while the handler function is installed terminate the process.
 
 theorem C15_third_exits (L : Layout) (md : Mode) (pre post : List Ev) (pc : PC)
@@ -177,7 +173,7 @@ theorem C15_third_exits (L : Layout) (md : Mode) (pre post : List Ev) (pc : PC)
     beginning of the destructor of one handler object).  Whatever registrations, solve/report steps and
     other events are interleaved, once three signals have been delivered the process has terminated with
     `_exit(1)`. -/
-theorem C15_third_exits_partial (L : Layout) (md : Mode) (pre post : List Ev) (pc : PC)
+theorem C15_anyorder_third_exits_after_ctor (L : Layout) (md : Mode) (pre post : List Ev) (pc : PC)
     (hpc : pcRun L .idle pre = some pc) (hin : pc.installed = true)
     (hpost : ∀ e ∈ post, Body e = true) (h3 : 3 ≤ sigCount post)
     (hrun : (run md init pre).1.halted = none) :
@@ -196,7 +192,7 @@ theorem C15_third_exits_partial (L : Layout) (md : Mode) (pre post : List Ev) (p
 
 /-- **The first two interrupts do not terminate the process** (partial: counted from the end of the
     constructor).  `pre` ends just before the constructor's `stop_ = 0`. -/
-theorem C15_no_early_exit_partial (L : Layout) (md : Mode) (pre post : List Ev)
+theorem C15_anyorder_no_early_exit_after_ctor (L : Layout) (md : Mode) (pre post : List Ev)
     (hpc : pcRun L .idle pre = some .cS2)
     (hpost : ∀ e ∈ post, Body e = true) (h2 : sigCount post ≤ 2)
     (hrun : (run md init pre).1.halted = none) :
@@ -210,14 +206,14 @@ theorem C15_no_early_exit_partial (L : Layout) (md : Mode) (pre post : List Ev)
 
 /-- ctor window again: `C W` with SIGINT after `signal(SIGINT,…)` and two more SIGINTs after the constructor:
     three interrupts delivered to the installed handler, the process is still running. -/
-theorem C15_counterexample_third_no_exit_ctor_window :
+theorem C15_oldorder_counterexample_third_no_exit_ctor_window :
     let evs := schedule (expandProg .pinned [.ctor, .work]) 0 [(5, .int), (7, .int), (7, .int)]
     sigCount evs = 3 ∧ (Obs.killed .int) ∉ (run .bsd init evs).2 ∧ (run .bsd init evs).1.halted = none := by
   decide
 
 /-- ctor window: two SIGINTs after `signal(SIGINT,…)` and before `stop_ = 0` terminate the process on the
     *second* interrupt. -/
-theorem C15_counterexample_early_exit_ctor_window :
+theorem C15_oldorder_counterexample_early_exit_ctor_window :
     let evs := schedule (expandProg .pinned [.ctor, .work]) 0 [(5, .int), (5, .int)]
     sigCount evs = 2 ∧ (run .bsd init evs).1.halted = some .exit1 := by
   decide
@@ -225,7 +221,7 @@ theorem C15_counterexample_early_exit_ctor_window :
 /-- teardown: `C W D W` with two SIGINTs during solving and one after the destructor: the destructor's
     `stop_ = 1` forgets one of them, the third interrupt does not terminate the process. -/
 theorem C15_counterexample_third_no_exit_across_teardown :
-    let evs := schedule (expandProg .pinned [.ctor, .work, .dtor, .work]) 0 [(8, .int), (8, .int), (13, .int)]
+    let evs := schedule (expandProg Layout.current [.ctor, .work, .dtor, .work]) 0 [(8, .int), (8, .int), (13, .int)]
     sigCount evs = 3 ∧ (run .bsd init evs).1.halted = none ∧ (run .bsd init evs).1.stop = 2 := by
   decide
 
@@ -317,16 +313,15 @@ theorem C15_no_spurious_stop (L : Layout) (md : Mode) (pre post : List Ev)
   rw [e1]
   split <;> simp [applyMicro, h0]
 
-/-! ## the proposed repairs: full-strength statements for the repaired layouts
+/-! ## strict statements for every store order with the repaired constructor / `SetHandler`
 
-`Layout.ctorStopFirst` (repo_patches/C15-fix-ctor-order.diff: `stop_ = 0` before the `signal()` calls) and
-`Layout.regClearFirst` (repo_patches/C15-fix-sethandler-order.diff: `handler_ = 0; data_ = d; handler_ = h`).
-For these layouts the strict statements hold; the check selects the layout it observes in the real code. -/
+`Layout.ctorStopFirst` (`stop_ = 0` before the `signal()` calls) and `Layout.regClearFirst`
+(`handler_ = 0; data_ = d; handler_ = h`); specialised to `Layout.current` in the MAIN THEOREMS section. -/
 
 /-- **No lost interrupt, strict reading, repaired constructor.**  "Installed" = this object's `signal()` call
     for `g` has been made.  `post` is any well-formed continuation (rest of the constructor, registrations, work,
     more signals) that does not enter the destructor. -/
-theorem C15_no_lost_repaired (L : Layout) (hL : L.ctorStopFirst = true) (md : Mode) (pre : List Ev) (g : Sig)
+theorem C15_order_no_lost (L : Layout) (hL : L.ctorStopFirst = true) (md : Mode) (pre : List Ev) (g : Sig)
     (post : List Ev) (pc pc' : PC)
     (hpc : pcRun L .idle pre = some pc) (hin : pc.installedFor g = true)
     (hpost : pcRun L pc post = some pc') (hnd : ∀ e ∈ post, isDtorStep e = false)
@@ -357,18 +352,18 @@ theorem C15_no_lost_repaired (L : Layout) (hL : L.ctorStopFirst = true) (md : Mo
 
 /-- **Pairing, every gap, repaired `SetHandler`.**  No exception for the registration window any more: whatever
     the delivery point, an invoked callback is the last completed registration, with its data. -/
-theorem C15_pairing_repaired (L : Layout) (hL : L.regClearFirst = true) (md : Mode) (pre : List Ev) (g : Sig) (pc : PC)
+theorem C15_order_pairing (L : Layout) (hL : L.regClearFirst = true) (md : Mode) (pre : List Ev) (g : Sig) (pc : PC)
     (hpc : pcRun L .idle pre = some pc)
     (hrun : (run md init pre).1.halted = none) (h d : Nat)
     (hcb : Obs.cb h d ∈ (deliver md (run md init pre).1 g).2) :
     pc.curReg = some (h, d) := by
   have hnm := regfix_no_mid L hL pre .idle pc (by intro r h; simp) hpc
-  refine C15_pairing_partial L md pre g pc hpc ?_ hrun h d hcb
+  refine C15_anyorder_pairing_outside_window L md pre g pc hpc ?_ hrun h d hcb
   cases pc <;> simp_all [PC.inWindow]
 
 /-- **Third interrupt terminates, strict reading, repaired constructor**: three signals anywhere between this
     object's first `signal()` call and its destructor. -/
-theorem C15_third_exits_repaired (L : Layout) (hL : L.ctorStopFirst = true) (md : Mode) (pre post : List Ev) (pc pc' : PC)
+theorem C15_order_third_exits (L : Layout) (hL : L.ctorStopFirst = true) (md : Mode) (pre post : List Ev) (pc pc' : PC)
     (_hpc : pcRun L .idle pre = some pc) (hin : pc.installedInt = true)
     (hpost : pcRun L pc post = some pc') (hnd : ∀ e ∈ post, isDtorStep e = false)
     (h3 : 3 ≤ sigCount post) :
@@ -383,7 +378,7 @@ theorem C15_third_exits_repaired (L : Layout) (hL : L.ctorStopFirst = true) (md 
 
 /-- **The first two interrupts never `_exit`, repaired constructor**: counted from the constructor's `stop_ = 0`,
     which now precedes the `signal()` calls. -/
-theorem C15_no_early_exit_repaired (L : Layout) (hL : L.ctorStopFirst = true) (md : Mode) (pre post : List Ev) (pc' : PC)
+theorem C15_order_no_early_exit (L : Layout) (hL : L.ctorStopFirst = true) (md : Mode) (pre post : List Ev) (pc' : PC)
     (_hpc : pcRun L .idle pre = some .cZ)
     (hpost : pcRun L .cZ (.step .cStop0 :: post) = some pc') (hnd : ∀ e ∈ post, isDtorStep e = false)
     (h2 : sigCount post ≤ 2)
@@ -395,6 +390,53 @@ theorem C15_no_early_exit_repaired (L : Layout) (hL : L.ctorStopFirst = true) (m
   have hneu : ∀ e ∈ post, Neutral e = true := fun e he =>
     neutral_of_bodyOrSignalCall e (ctorfix_tail0 L hL post pc' hp0 hnd e he)
   exact no_exit_run md post _ hneu (by simp [applyMicro]; omega) (by rw [applyMicro_halted, hrun]; simp)
+
+/-! ## MAIN THEOREMS for the store order the code has now (`Layout.current`)
+
+"Installed" is the strict reading: this handler object's own `signal()` call for the signal has been made
+(`PC.installedFor g`), and its destructor has not begun (`isDtorStep`).  `pre`/`post`: arbitrary well-formed event
+sequences — any registrations, work steps and signals in any interleaving, any number of earlier handler objects. -/
+
+/-- **An interrupt is never lost.** -/
+theorem C15_no_lost (md : Mode) (pre : List Ev) (g : Sig) (post : List Ev) (pc pc' : PC)
+    (hpc : pcRun Layout.current .idle pre = some pc) (hin : pc.installedFor g = true)
+    (hpost : pcRun Layout.current pc post = some pc') (hnd : ∀ e ∈ post, isDtorStep e = false)
+    (hrun : (run md init (pre ++ .sig g :: post)).1.halted = none) :
+    stopQuery (run md init (pre ++ .sig g :: post)).1 = true :=
+  C15_order_no_lost Layout.current rfl md pre g post pc pc' hpc hin hpost hnd hrun
+
+/-- **A callback is only ever invoked with the data registered with it**, at every delivery point, including
+    between the individual stores of `SetHandler`. -/
+theorem C15_pairing (md : Mode) (pre : List Ev) (g : Sig) (pc : PC)
+    (hpc : pcRun Layout.current .idle pre = some pc)
+    (hrun : (run md init pre).1.halted = none) (h d : Nat)
+    (hcb : Obs.cb h d ∈ (deliver md (run md init pre).1 g).2) :
+    pc.curReg = some (h, d) :=
+  C15_order_pairing Layout.current rfl md pre g pc hpc hrun h d hcb
+
+/-
+Full-strength statement of the third-interrupt clause (still FALSE, see
+`C15_counterexample_third_no_exit_across_teardown`: the destructor's `stop_ = 1` forgets one of two recorded
+interrupts): the same as `C15_third_exits_partial` without `hnd`.
+-/
+
+/-- **A third interrupt terminates the process** (partial: the three signals arrive before the destructor begins). -/
+theorem C15_third_exits_partial (md : Mode) (pre post : List Ev) (pc pc' : PC)
+    (hpc : pcRun Layout.current .idle pre = some pc) (hin : pc.installedInt = true)
+    (hpost : pcRun Layout.current pc post = some pc') (hnd : ∀ e ∈ post, isDtorStep e = false)
+    (h3 : 3 ≤ sigCount post) :
+    (run md init (pre ++ post)).1.halted ≠ none :=
+  C15_order_third_exits Layout.current rfl md pre post pc pc' hpc hin hpost hnd h3
+
+/-- **The first two interrupts never `_exit`**, counted from the constructor's `stop_ = 0` (which precedes the
+    `signal()` calls). -/
+theorem C15_no_early_exit (md : Mode) (pre post : List Ev) (pc' : PC)
+    (hpc : pcRun Layout.current .idle pre = some .cZ)
+    (hpost : pcRun Layout.current .cZ (.step .cStop0 :: post) = some pc') (hnd : ∀ e ∈ post, isDtorStep e = false)
+    (h2 : sigCount post ≤ 2)
+    (hrun : (run md init pre).1.halted = none) :
+    (run md init (pre ++ .step .cStop0 :: post)).1.halted ≠ some .exit1 :=
+  C15_order_no_early_exit Layout.current rfl md pre post pc' hpc hpost hnd h2 hrun
 
 /-! ## the correspondence inputs are instances of the theorems -/
 
@@ -415,7 +457,7 @@ example :
     let evs := schedule (expandProg .pinned [.ctor, .reg 1 1, .work, .dtor, .work]) 0 [(9, .int)]
     (run .bsd init evs).2 = [.brk 18 true, .cb 1 1, .rearm .int, .query true, .query false] := by decide
 
-/-- the hypotheses of `C15_no_lost_partial` / `C15_third_exits_partial` are satisfiable: the constructor's
+/-- the hypotheses of `C15_anyorder_no_lost_after_ctor` / `C15_anyorder_third_exits_after_ctor` are satisfiable: the constructor's
     event sequence ends in an installed point with the process running -/
 example : pcRun .pinned .idle ((ctorSteps .pinned).map Ev.step) = some (.live none) ∧
     (run .sysv init ((ctorSteps .pinned).map Ev.step)).1.halted = none := by decide
@@ -430,7 +472,7 @@ example :
 /-- before installation the default action kills the process -/
 example : (run .bsd init (schedule (expandProg .pinned [.ctor]) 0 [(3, .term)])).1.halted = some (.killed .term) := by decide
 
-/-- repaired layout, the schedule of `C15_counterexample_lost_in_ctor_window` moved to the same place (right after
+/-- repaired layout, the schedule of `C15_oldorder_counterexample_lost_in_ctor_window` moved to the same place (right after
     `signal(SIGINT, …)`, now gap 6): the interrupt is seen by the solve step -/
 example :
     let evs := schedule (expandProg .fixed [.ctor, .work]) 0 [(6, .int)]
